@@ -89,7 +89,7 @@ fn dryoc_string(i: &Input) -> Outcome {
         return fail("libsodium rejects", "libsodium accepts", format!("crypto_pwhash_str output {} with a wrong password", s));
     }
     // object API, non-default lengths
-    for (sl, hl) in [(16usize, 32usize), (8, 16), (24, 64)] {
+    for (sl, hl) in [(16usize, 32usize), (8, 16), (24, 64), (64, 128), (9, 33)] {
         let cfg = Config::interactive().with_opslimit(ops).with_memlimit(mem).with_salt_length(sl).with_hash_length(hl);
         let p: VecPwHash = must_ok(VecPwHash::hash(&pw.to_vec(), cfg), "PwHash::hash")?;
         let ps = p.to_string();
@@ -101,6 +101,9 @@ fn dryoc_string(i: &Input) -> Outcome {
         }
         let q = must_ok(VecPwHash::from_string(&ps), "PwHash::from_string(to_string())")?;
         s_eq("to_string(from_string(to_string(p)))", &ps, &q.to_string())?;
+        // the parsed object is the object that was encoded: it still verifies the password (and only that one)
+        must_ok(q.verify(&pw.to_vec()), &format!("from_string({}).verify(right password) (salt {}, hash {} bytes)", ps, sl, hl))?;
+        must_err(q.verify(&wrong), "from_string(to_string(p)).verify(wrong password)")?;
     }
     Ok(())
 }
